@@ -328,6 +328,21 @@ class Src:
         self.hyps.append(z3.ULT(s, bv(1 << 40, 64)))
         return VStruct([s, ns], ty)
 
+    def short_string(self, name, cap=4):
+        """string of at most `cap` printable ASCII bytes, modelled byte by byte; its identity is a canonical function of (len, bytes)"""
+        from values import VSeq, VStr
+
+        ln = self.bv(name + ".len", 8)
+        bs = [self.bv(f"{name}.b{i}", 8) for i in range(cap)]
+        self.hyps.append(z3.ULE(ln, bv(cap, 8)))
+        masked = []
+        for i, b in enumerate(bs):
+            inside = z3.ULT(bv(i, 8), ln)
+            self.hyps.append(z3.Implies(inside, z3.And(z3.UGE(b, bv(0x21, 8)), z3.ULE(b, bv(0x7E, 8)))))
+            masked.append(z3.If(inside, b, bv(0, 8)))
+        ident = z3.ZeroExt(64 - 8 * (cap + 1), z3.Concat(ln, *masked))
+        return VStr(z3.simplify(ident), None, VSeq(masked, z3.ZeroExt(56, ln)))
+
     def pin(self, name, term):
         """named scalar equal to `term` (so that the model reports e.g. array reads)"""
         if z3.is_bool(term):
